@@ -174,6 +174,14 @@ def record_fit(params, X, Kmat=None, variant="compiled", queries=None, scale=1.0
         train_pred = model.predict(X)
         sc, scok = _scaled(float(model.score(X, Kgiven)) / scale, L)
         gains = [_scaled(float(g) / scale, L)[0] for g in t.gains]
+        # the score of OTHER data with the same number of rows: kernel-KMeans objective of the labels predicted for it
+        X2 = X[::-1] + 1.0
+        K2 = None if Kmat is None else Kgiven[::-1, ::-1]
+        Kfull2 = (X2 @ X2.T) if Kmat is None else K2
+        lab2 = model.predict(X2)
+        ref2 = sum(Kfull2[np.ix_(np.where(lab2 == k_)[0], np.where(lab2 == k_)[0])].sum() / (lab2 == k_).sum() for k_ in np.unique(lab2))
+        sc2 = float(model.score(X2, K2))
+        score2ok = bool(abs(sc2 - ref2) <= 1e-9 * max(1.0, abs(ref2)))
         events.append(dict(
             e="end", labels=[int(v) for v in model.labels_], leaves=[int(v) for v in model.leaves_],
             tree=dict(left=[int(v) for v in t.children_left], right=[int(v) for v in t.children_right],
@@ -182,7 +190,7 @@ def record_fit(params, X, Kmat=None, variant="compiled", queries=None, scale=1.0
                       target=[int(v) for v in t.target], depth=[int(v) for v in t.depths], gain=gains),
             queries=[[int(v) for v in q] for q in queries] + X.astype(int).tolist(),
             pred=[int(v) for v in pred] + [int(v) for v in train_pred],
-            score=sc, scoreok=scok, nnodes=int(t.n_nodes)))
+            score=sc, scoreok=scok, score2ok=score2ok, nnodes=int(t.n_nodes)))
     return events, model
 
 
